@@ -8,7 +8,7 @@ use yasna::Tag;
 #[cfg(feature = "pem")]
 use crate::ENCODE_CONFIG;
 use crate::{
-	dt_to_generalized, oid, write_distinguished_name, write_dt_utc_or_generalized,
+	dt_to_generalized, ensure_ia5, oid, write_distinguished_name, write_dt_utc_or_generalized,
 	write_x509_authority_key_identifier, write_x509_extension, Certificate, Error, Issuer,
 	KeyIdMethod, KeyPair, KeyUsagePurpose, SerialNumber,
 };
@@ -107,6 +107,11 @@ pub struct CrlDistributionPoint {
 }
 
 impl CrlDistributionPoint {
+	/// URIs are plain `String`s but are encoded as `IA5String`s
+	pub(crate) fn validate(&self) -> Result<(), Error> {
+		self.uris.iter().try_for_each(|uri| ensure_ia5(uri))
+	}
+
 	pub(crate) fn write_der(&self, writer: DERWriter) {
 		// DistributionPoint SEQUENCE
 		writer.write_sequence(|writer| {
@@ -207,6 +212,10 @@ impl CertificateRevocationListParams {
 
 		if !issuer.key_usages.is_empty() && !issuer.key_usages.contains(&KeyUsagePurpose::CrlSign) {
 			return Err(Error::IssuerNotCrlSigner);
+		}
+
+		if let Some(issuing_distribution_point) = &self.issuing_distribution_point {
+			issuing_distribution_point.distribution_point.validate()?;
 		}
 
 		Ok(CertificateRevocationList {
